@@ -58,8 +58,8 @@ unsafe impl GlobalAlloc for CountingAlloc {
     }
 }
 
-#[global_allocator]
-static GLOBAL: CountingAlloc = CountingAlloc;
+// Registered as the global allocator by the `rt` BINARY (main.rs), not by this library: other binaries that link
+// the library (genrun) install their own; there the counters stay at zero and the allocation oracle is silent.
 
 /// run `f`; returns its result, the peak of live bytes above the level at entry, the largest single request.
 fn measured<T>(f: impl FnOnce() -> T) -> (T, usize, usize) {
